@@ -71,6 +71,9 @@ pub fn t_lfu(a: u32, b: String) -> u64 { body2(a, b) }
 #[cache(scope = "thread", invalidate_on = stale)]
 pub fn t_invalidate_on(a: u32, b: String) -> u64 { body2(a, b) }
 
+#[cache(scope = "thread", limit = 4, policy = "lru", ttl = 45)]
+pub fn t_lru_ttl(a: u32, b: String) -> u64 { body2(a, b) }
+
 #[cache(scope = "thread", limit = 8, policy = "fifo")]
 pub fn t_plain(a: u32, b: String) -> u64 { body2(a, b) }
 
